@@ -211,6 +211,8 @@ def add_recover_task(chk, prog, gl, tasks):
 def main():
     chk = Check('C06')
     tasks = build(chk, os.environ.get('VERIF_ONLY', ''))
+    from .common import include_ring_dependency
+    include_ring_dependency(chk, tasks, 'C01', 'field', ['field_sqrt'], 'compressed decoding and RecoverPoint take the square root of x^3 + 7 with Element.Sqrt; the decode obligations use its contract (root iff square, zero otherwise), the real SqrtRatio / Sqrt code is re-decided here')
     chk.run_tasks(tasks)
     chk.discharge()
     chk.finish()
